@@ -19,7 +19,24 @@ def r1_destination_provenance(run):
     fi = m.func("entity.Entity.pick_binding")
     cfg = cfg_of(fi, m)
     org = Origins(cfg, transparent={"destinations": (0,)})
-    rets = cfg.by_kind("return")
+    # value sites: `return (b, url)`, or - when a variable is returned - the
+    # statements that give it a (b, url) value; any other value that can
+    # reach the return must be None and the return guarded by `is not None`
+    rets = []
+    for r in cfg.by_kind("return"):
+        v = r.ast.value
+        if isinstance(v, ast.Name):
+            defs = cfg.rd.reaching(v.id, r.id)
+            tuples = [d for d in defs if isinstance(d.value, ast.Tuple) and
+                      isinstance(cfg.nodes[d.node].ast, ast.Assign)]
+            others = [d for d in defs if d not in tuples]
+            if tuples and all(isinstance(d.value, ast.Constant) and
+                              d.value.value is None for d in others) and (
+                    not others or Q("%s is not None" % v.id, True)
+                    in facts(cfg, r.id)):
+                rets.extend(cfg.nodes[d.node] for d in tuples)
+                continue
+        rets.append(r)
     run.floor("R1", "return sites", len(rets), 3)
     # srvs = sfunc(entity_id, binding, descr_type); sfunc = getattr(self.metadata, service)
     sf = [s for s in walk_no_nested(fi.node) if isinstance(s, ast.Assign) and
@@ -30,7 +47,8 @@ def r1_destination_provenance(run):
               "sfunc <- %s" % [unparse(s.value) for s in sf], fi.loc())
     for r in rets:
         v = r.ast.value
-        key = fi.qual + "::" + norm_text(r.ast)
+        key = fi.qual + "::" + norm_text(r.ast if isinstance(r.ast, ast.Return)
+                                         else ast.Return(value=v))
         if not (isinstance(v, ast.Tuple) and len(v.elts) == 2):
             run.violated("R1", key, "unexpected return shape", fi.loc(r.ast))
             continue
@@ -39,8 +57,8 @@ def r1_destination_provenance(run):
         # the binding is one of the candidate bindings that the metadata
         # lookup was made with
         gs = cfg.guards(r.id)
-        facts = {(unparse(e), p) for e, p, _ in gs}
-        run.check(Q("srvs", True) in facts, "R1", key + "::srvs-nonempty",
+        gfacts = {(unparse(e), p) for e, p, _ in gs}
+        run.check(Q("srvs", True) in gfacts, "R1", key + "::srvs-nonempty",
                   "only when the metadata lists services for this binding",
                   "returned without a non-empty metadata service list",
                   fi.loc(r.ast))
@@ -323,6 +341,59 @@ def r5_accessors_pass_binding(run, rule="R5"):
     run.floor(rule, "accessor calls to service()", n, 10)
 
 
+def r6_verify_acs(run):
+    run.rule("R6", "Server.verify_assertion_consumer_service answers True only "
+             "under an equality between the requested URL / index ITSELF and a "
+             "value read from the requester's registered consumer services - "
+             "not between derived (normalised, truncated, partial) forms, "
+             "which make an unregistered address compare equal")
+    m = run.model
+    fi = m.func("server.Server.verify_assertion_consumer_service")
+    cfg = cfg_of(fi, m)
+    org = Origins(cfg)
+    req = [a for a in fi.params() if a != "self"][0]
+    wanted = {"%s.assertion_consumer_service_url" % req,
+              "%s.assertion_consumer_service_index" % req}
+    n = 0
+    for r in cfg.by_kind("return"):
+        v = r.ast.value
+        if v is None or is_falsy_const(v):
+            continue
+        n += 1
+        ok = False
+        seen = []
+        for e, pol, _ in cfg.guards(r.id):
+            cp = compare_parts(e)
+            if cp is None or not pol or not isinstance(cp[1], ast.Eq):
+                continue
+            l, _, rr = cp
+            for a, b in ((l, rr), (rr, l)):
+                at = cfg.itext(a, r.id)
+                seen.append(at)
+                if at not in wanted:
+                    continue
+                root = b
+                while isinstance(root, (ast.Attribute, ast.Subscript)):
+                    root = root.value
+                if not isinstance(root, ast.Name):
+                    continue
+                for lp in cfg.by_kind("foriter"):
+                    if isinstance(lp.ast.target, ast.Name) and \
+                            lp.ast.target.id == root.id and \
+                            cfg.dominates(lp.id, r.id) and \
+                            cfg.itext(lp.ast.iter, lp.id).startswith(
+                                "self.metadata.assertion_consumer_service("):
+                        ok = True
+        run.check(ok, "R6", "%s::%s" % (fi.qual, norm_text(r.ast)),
+                  "True only when the requested address equals a registered one",
+                  "True is returned without an equality test of the requested "
+                  "URL/index itself against the registered services (compared: "
+                  "%s): an address that is not registered can be confirmed" %
+                  sorted(set(seen)), fi.loc(r.ast))
+    run.floor("R6", "positive answers of verify_assertion_consumer_service",
+              n, 2)
+
+
 def check(run):
     run.explanation = (
         "C09: derivation of every destination returned by pick_binding "
@@ -338,3 +409,4 @@ def check(run):
     r3_requester_metadata(run)
     r4_store_side(run)
     r5_accessors_pass_binding(run)
+    r6_verify_acs(run)
